@@ -121,6 +121,7 @@ type Oci struct {
 	Container
 	Cdi  Strs `json:"cdi"`
 	Mord Strs `json:"mord"`
+	Eord Strs `json:"eord"` // process environment as listed (determinism checks)
 }
 
 // Adjust is one adjustment in wire shape.
